@@ -12,6 +12,7 @@ import SqLemmas.ParseLayout
 import SqLemmas.LexBlank
 import SqLemmas.ParseErase
 import Sq.Proto
+import SqLemmas.LexExtraBlank
 namespace SqProps.C15
 open Sq
 
@@ -163,3 +164,50 @@ theorem lexer_is_offset_invariant (d : Nat) (st : LexSt) (s : List Char) :
 example : (lexFrom LexSt.init " \t1 +  2".toList).toOption.map (fun p => p.1.map (fun t => (t.ty, t.val))) =
     (lexFrom LexSt.init "1 +  2".toList).toOption.map (fun p => p.1.map (fun t => (t.ty, t.val))) := by decide +kernel
 
+/-! ### from the lexer to the parsed program -/
+
+/-- **the parser reads only token kinds and values**: offsets and line stamps never influence the tree -/
+theorem parser_reads_kind_and_value (f : Token → Token) (hty : ∀ t, (f t).ty = t.ty) (hval : ∀ t, (f t).val = t.val)
+    (ts : List Token) (out : List Op) (h : parseTokens ts = .ok (.code out)) : parseTokens (ts.map f) = .ok (.code out) :=
+  parse_reads_kind_and_value f hty hval ts out h
+
+/-! ### character level, the whole statement: an extra blank BETWEEN TOKENS -/
+
+/-- **an extra space or tab between tokens never changes the tokens**: if lexing `s` passes through the point where `post`
+    remains (`LexReach`: a point between two steps of the lexer — not inside a string literal, a %…% name or a
+    multi-character token), then `s = u ++ post` and lexing `u ++ b :: post` delivers the same tokens before the blank and
+    the same tokens after it — kinds, values, line numbers; offsets one further — and the same lexical error if any -/
+theorem extra_blank_between_tokens_same_tokens (b : Char) (hb : isBlank b) {post s : List Char} {st1 : LexSt}
+    {acc1 : List Token} (h : LexReach post LexSt.init s [] st1 acc1) :
+    ∃ u, s = u ++ post ∧
+      lexFrom LexSt.init s = preOut acc1 (lexAll st1 post []) ∧
+      lexFrom LexSt.init (u ++ b :: post) = preOut acc1 (shiftOut 1 (lexAll st1 post [])) :=
+  lex_extra_blank b hb h
+
+open Proto in
+/-- **… and never changes the parsed program**: the text with the blank parses to a tree iff the text without it does,
+    and then to the same tree -/
+theorem extra_blank_between_tokens_same_program (b : Char) (hb : isBlank b) {post s : List Char} {st1 : LexSt}
+    {acc1 : List Token} (h : LexReach post LexSt.init s [] st1 acc1) (tree : Op) :
+    ∃ u, s = u ++ post ∧ (parseText LexSt.init (u ++ b :: post) = .ok tree ↔ parseText LexSt.init s = .ok tree) :=
+  extra_blank_same_program b hb h tree
+
+open Proto in
+/-- a leading blank is the special case `u = []` -/
+theorem leading_blank_same_program (b : Char) (hb : isBlank b) (s : List Char) (t : Op) :
+    parseText LexSt.init (b :: s) = .ok t ↔ parseText LexSt.init s = .ok t := by
+  obtain ⟨u, e, h⟩ := extra_blank_same_program b hb (LexReach.here (post := s) LexSt.init []) t
+  have : u = [] := append_self_nil e
+  subst this
+  exact h
+
+/-- non-vacuity: lexing `1+2` passes through the point where `+2` remains (after the NUMBER token) -/
+example : ∃ st1 acc1, LexReach "+2".toList LexSt.init "1+2".toList [] st1 acc1 :=
+  ⟨_, _, LexReach.tok (t := ⟨.NUMBER, ['1'], 0, 1⟩) (st' := ⟨1, 1, 0⟩) (by rfl) (LexReach.here _ _)⟩
+
+/-- … and a blank between `=` and `>` of `a=>b` changes the tokens (it is not between tokens: `=>` is one LAMBDA token) -/
+example : (lexFrom LexSt.init "a=>b".toList).toOption.map (fun p => p.1.map (·.ty)) = some [.NAME, .LAMBDA, .NAME] ∧
+    (lexFrom LexSt.init "a= >b".toList).toOption.map (fun p => p.1.map (·.ty)) = some [.NAME, .ASSIGN, .GT, .NAME] := by
+  decide +kernel
+
+end SqProps.C15
